@@ -520,4 +520,231 @@ theorem fieldValue_agrees (sch : SchemaEval) (v : V) : StD sch v :=
   (agree_upTo sch (sizeOf v + 1)).d v (Nat.lt_succ_self _)
 
 
+/-! ### entries, filters, $and/$or/$nor -/
+
+/-- a reference verdict as a matcher result -/
+def resU : Res Bool → Res Unit
+  | .ok true => .ok ()
+  | .ok false => .error .notMatched
+  | .error e => .error e
+
+theorem resU_ok (b : Bool) : resU (.ok b) = toRes b := by cases b <;> rfl
+
+theorem resU_schema (sch : SchemaEval) (s d : Doc) : resU (schemaHolds sch s d) = sch s d := by
+  unfold schemaHolds
+  cases h : sch s d with
+  | ok u => cases u; rfl
+  | error e => cases e <;> rfl
+
+theorem schema_ne_nm (sch : SchemaEval) (s d : Doc) : schemaHolds sch s d ≠ .error .notMatched := by
+  unfold schemaHolds
+  cases h : sch s d with
+  | ok u => simp
+  | error e => cases e <;> simp
+
+theorem negate_resU (r : Res Bool) (h : r ≠ .error .notMatched) : negate (resU r) = resU (r.map (!·)) := by
+  cases r with
+  | ok b => cases b <;> rfl
+  | error e => cases e <;> first | rfl | exact absurd rfl h
+
+def StE (sch : SchemaEval) (k : String) (v : V) : Prop :=
+  ∀ (d : Doc) (e : Entry), parseEntry k v = some e → noNestedArrays (.doc d) = true → coreE true d e = true →
+    mExpr sch d "" k v true = resU (holdsE sch d e) ∧ holdsE sch d e ≠ .error .notMatched
+def StEs (sch : SchemaEval) (q : List (String × V)) : Prop :=
+  ∀ (d : Doc) (es : List Entry), parseEntries q = some es → noNestedArrays (.doc d) = true → coreEs true d es = true →
+    mProcess sch d q "" true = resU (holdsEs sch d es) ∧ holdsEs sch d es ≠ .error .notMatched
+def StFs (sch : SchemaEval) (items : List V) : Prop :=
+  ∀ (d : Doc) (fs : List Filter), parseFilters items = some fs → noNestedArrays (.doc d) = true → coreFs true d fs = true →
+    (mAndLoop sch d items = resU (allF sch d fs) ∧ allF sch d fs ≠ .error .notMatched) ∧
+    (mOrLoop sch d items = resU (anyF sch d fs) ∧ anyF sch d fs ≠ .error .notMatched)
+
+structure TopUpTo (sch : SchemaEval) (n : Nat) : Prop where
+  e : ∀ k v, sizeOf v < n → StE sch k v
+  es : ∀ q, sizeOf q < n → StEs sch q
+  fs : ∀ items, sizeOf items < n → StFs sch items
+
+theorem entry_step (sch : SchemaEval) (n : Nat) (ih : TopUpTo sch n) (k : String) (v : V)
+    (hn : sizeOf v < n + 1) : StE sch k v := by
+  intro d e hp hd hc
+  unfold parseEntry at hp
+  by_cases hop : isOpKey k = true
+  · simp only [hop, ↓reduceIte] at hp
+    by_cases hand : k = "$and"
+    · subst hand
+      simp only [beq_self_eq_true, ↓reduceIte] at hp
+      cases v with
+      | arr xs =>
+        cases xs with
+        | nil => simp at hp
+        | cons x r =>
+          simp only [Option.map_eq_some_iff] at hp
+          obtain ⟨fs, hfs, rfl⟩ := hp
+          have := (ih.fs (x :: r) (by simp at hn ⊢; omega) d fs hfs hd (by simpa [coreE] using hc)).1
+          unfold mExpr
+          simp only [holdsE]
+          refine ⟨?_, this.2⟩
+          simpa [isOpKey] using this.1
+      | _ => simp at hp
+    · have hand' : (k == "$and") = false := by simpa using hand
+      by_cases hor : k = "$or"
+      · subst hor
+        simp only [hand', Bool.false_eq_true, ↓reduceIte, beq_self_eq_true] at hp
+        cases v with
+        | arr xs =>
+          cases xs with
+          | nil => simp at hp
+          | cons x r =>
+            simp only [Option.map_eq_some_iff] at hp
+            obtain ⟨fs, hfs, rfl⟩ := hp
+            have := (ih.fs (x :: r) (by simp at hn ⊢; omega) d fs hfs hd (by simpa [coreE] using hc)).2
+            unfold mExpr
+            simp only [holdsE]
+            refine ⟨?_, this.2⟩
+            simpa [isOpKey] using this.1
+        | _ => simp at hp
+      · have hor' : (k == "$or") = false := by simpa using hor
+        by_cases hnor : k = "$nor"
+        · subst hnor
+          simp only [hand', hor', Bool.false_eq_true, ↓reduceIte, beq_self_eq_true] at hp
+          cases v with
+          | arr xs =>
+            cases xs with
+            | nil => simp at hp
+            | cons x r =>
+              simp only [Option.map_eq_some_iff] at hp
+              obtain ⟨fs, hfs, rfl⟩ := hp
+              have := (ih.fs (x :: r) (by simp at hn ⊢; omega) d fs hfs hd (by simpa [coreE] using hc)).2
+              unfold mExpr
+              simp only [holdsE]
+              constructor
+              · rw [← negate_resU _ this.2, ← this.1]
+                simp [isOpKey]
+              · cases h : anyF sch d fs with
+                | ok b => simp [Except.map]
+                | error e =>
+                  simp only [Except.map]
+                  intro he
+                  exact this.2 (by rw [h]; exact he)
+          | _ => simp at hp
+        · have hnor' : (k == "$nor") = false := by simpa using hnor
+          by_cases hjs : k = "$jsonSchema"
+          · subst hjs
+            simp only [hand', hor', hnor', Bool.false_eq_true, ↓reduceIte, beq_self_eq_true] at hp
+            cases v with
+            | doc s =>
+              simp only [Option.some.injEq] at hp
+              subst hp
+              unfold mExpr
+              simp only [holdsE]
+              refine ⟨?_, schema_ne_nm sch s d⟩
+              rw [resU_schema]
+              simp [isOpKey]
+            | _ => simp at hp
+          · have hjs' : (k == "$jsonSchema") = false := by simpa using hjs
+            simp [hand', hor', hnor', hjs'] at hp
+  · have hop' : isOpKey k = false := by simpa using hop
+    simp only [hop', Bool.false_eq_true, ↓reduceIte, Option.map_eq_some_iff] at hp
+    obtain ⟨cs, hcs, rfl⟩ := hp
+    simp only [coreE, coreFC, Bool.and_eq_true] at hc
+    have hjoin : joinKey "" k = k := by simp [joinKey]
+    have hpd : PathDom d k := by
+      refine ⟨hd, ?_⟩
+      have := hc.1
+      simp only [pathOK, Bool.and_eq_true] at this
+      exact this.2
+    rw [mExpr_field sch d "" k v true hop', hjoin, fieldValue_agrees sch v d k cs hcs hpd hc.2]
+    simp only [holdsE, holdsFC, resU_ok]
+    exact ⟨by first | rfl | trivial, by simp⟩
+
+theorem entries_step (sch : SchemaEval) (n : Nat) (ih : TopUpTo sch n) (q : List (String × V))
+    (hn : sizeOf q < n + 1) : StEs sch q := by
+  intro d es hp hd hc
+  cases q with
+  | nil =>
+    simp only [parseEntries, Option.some.injEq] at hp
+    subst hp
+    rw [mProcess, holdsEs]
+    exact ⟨by first | rfl | trivial, by simp⟩
+  | cons kv r =>
+    obtain ⟨k, v⟩ := kv
+    rw [parseEntries] at hp
+    cases hpe : parseEntry k v with
+    | none => simp [hpe] at hp
+    | some e =>
+      cases hpr : parseEntries r with
+      | none => simp [hpe, hpr] at hp
+      | some es' =>
+        simp only [hpe, hpr, Option.some.injEq] at hp
+        subst hp
+        simp only [coreEs, Bool.and_eq_true] at hc
+        obtain ⟨h1, h1n⟩ := ih.e k v (by simp at hn ⊢; omega) d e hpe hd hc.1
+        obtain ⟨h2, h2n⟩ := ih.es r (by simp at hn ⊢; omega) d es' hpr hd hc.2
+        rw [mProcess, h1, holdsEs]
+        cases he : holdsE sch d e with
+        | ok b =>
+          cases b
+          · simp [resU]
+          · simp only [resU]; exact ⟨h2, h2n⟩
+        | error err =>
+          simp only [resU]
+          exact ⟨by first | rfl | trivial, by rw [← he]; exact h1n⟩
+
+theorem filters_step (sch : SchemaEval) (n : Nat) (ih : TopUpTo sch n) (items : List V)
+    (hn : sizeOf items < n + 1) : StFs sch items := by
+  intro d fs hp hd hc
+  cases items with
+  | nil =>
+    simp only [parseFilters, Option.some.injEq] at hp
+    subst hp
+    rw [mAndLoop, mOrLoop, allF, anyF]
+    exact ⟨⟨rfl, by simp⟩, ⟨rfl, by simp⟩⟩
+  | cons x r =>
+    cases x with
+    | doc q =>
+      rw [parseFilters] at hp
+      cases hpq : parseEntries q with
+      | none => simp [hpq] at hp
+      | some es =>
+        cases hpr : parseFilters r with
+        | none => simp [hpq, hpr] at hp
+        | some fs' =>
+          simp only [hpq, hpr, Option.some.injEq] at hp
+          subst hp
+          simp only [coreFs, coreF, Bool.and_eq_true] at hc
+          obtain ⟨h1, h1n⟩ := ih.es q (by simp at hn ⊢; omega) d es hpq hd hc.1
+          obtain ⟨⟨ha, han⟩, ⟨ho, hon⟩⟩ := ih.fs r (by simp at hn ⊢; omega) d fs' hpr hd hc.2
+          rw [mAndLoop, mOrLoop, h1, allF, anyF, holdsF]
+          cases he : holdsEs sch d es with
+          | ok b =>
+            cases b
+            · simp only [resU]
+              exact ⟨⟨by first | rfl | trivial, by simp⟩, ⟨ho, hon⟩⟩
+            · simp only [resU]
+              exact ⟨⟨ha, han⟩, ⟨by first | rfl | trivial, by simp⟩⟩
+          | error err =>
+            have hne : err ≠ .notMatched := by
+              intro h; subst h; exact h1n he
+            simp only [resU]
+            refine ⟨⟨by first | rfl | trivial, by rw [← he]; exact h1n⟩, ⟨?_, by rw [← he]; exact h1n⟩⟩
+            cases err <;> first | rfl | trivial | exact absurd rfl hne
+    | _ => simp [parseFilters] at hp
+
+theorem top_upTo (sch : SchemaEval) : ∀ n, TopUpTo sch n := by
+  intro n
+  induction n with
+  | zero => exact ⟨fun _ _ h => absurd h (Nat.not_lt_zero _), fun _ h => absurd h (Nat.not_lt_zero _),
+      fun _ h => absurd h (Nat.not_lt_zero _)⟩
+  | succ n ih =>
+    exact ⟨fun k v h => entry_step sch n ih k v h, fun q h => entries_step sch n ih q h,
+      fun items h => filters_step sch n ih items h⟩
+
+theorem entries_agree (sch : SchemaEval) (q : List (String × V)) : StEs sch q :=
+  (top_upTo sch (sizeOf q + 1)).es q (Nat.lt_succ_self _)
+
+theorem entry_agrees (sch : SchemaEval) (k : String) (v : V) : StE sch k v :=
+  (top_upTo sch (sizeOf v + 1)).e k v (Nat.lt_succ_self _)
+
+theorem filters_agree (sch : SchemaEval) (items : List V) : StFs sch items :=
+  (top_upTo sch (sizeOf items + 1)).fs items (Nat.lt_succ_self _)
+
 end Lungo
